@@ -350,7 +350,13 @@ def primal_check(rec, ret_value, mode, held_objects=(), posthoc=None):
         mv = [canon.expr_value(e, GG, Fv, idx) for e in mets]
         objv = float(pep.objective.eval())
         sc = scale * (1.0 + max(abs(x) for x in mv))
-        add("objective_not_min_metric", "objective value %.9g vs min metric %.9g" % (objv, min(mv)), abs(objv - min(mv)), sc)
+        if rec.get("prepare") is None:
+            add("objective_not_min_metric", "objective value %.9g vs min metric %.9g" % (objv, min(mv)), abs(objv - min(mv)), sc)
+        else:
+            # after a dimension-reduction heuristic the objective variable is only tied by
+            # optimum - tol <= objective <= metric_k : it is a lower bound attained by the instance
+            add("objective_exceeds_min_metric", "objective value %.9g exceeds the smallest metric %.9g at the returned instance"
+                % (objv, min(mv)), max(objv - min(mv), 0.0), sc)
         info["min_metric"] = min(mv)
         if mode == "primal" and ret_value is not None:
             add("primal_return_not_objective", "primal-mode return %.9g vs objective value %.9g" % (ret_value, objv),
